@@ -19,10 +19,15 @@ def classify(v, src, fin, strict, obs):
     return {'kind': v['kind']}
 
 
+def _opts(o, i):
+    o.reserved = (i % 3 == 1)
+    return o
+
+
 def run(ctx):
     n = ctx.budget(60, 2500)
-    srcs = FC.gen_sources(ctx, n, lambda i: Opts(sugar=(i % 3 == 0), max_bin=5 if ctx.tier == 'quick' else 6,
-                                                  whole_rhs_cast=(i % 6 == 0)))
+    srcs = FC.gen_sources(ctx, n, lambda i: _opts(Opts(sugar=(i % 3 == 0), max_bin=5 if ctx.tier == 'quick' else 6,
+                                                        whole_rhs_cast=(i % 6 == 0)), i))
     FC.run_functions(ctx, srcs, [(False, False), (True, False), (False, True), (True, True)], classify=classify,
                      strict_every=4 if ctx.tier == 'quick' else 0)
 
